@@ -106,6 +106,9 @@ func cliCheck(id, explain string) *checkDef {
 					j.Pkg = "runh"
 					out = append(out, j)
 				}
+				// and the inductive step, whose invariant includes "nothing is recorded after a
+				// failure on the recorded inputs"
+				out = append(out, indJobs(histShapes)...)
 			}
 			return out
 		},
